@@ -190,3 +190,113 @@ class _h_containers:
         want = ("u", "v") if a._cfg_kind in ("pandas", "polars") else ("axis0", "axis1")
         return tuple(attr(result, "_meta_data").get("axis_names") or ("axis0", "axis1")) == want
 
+
+
+# ---------------------------------------------------------------------------------------------- dask: graph shape (the scheduler is trusted)
+
+@contract("physt.compat.dask:_run_dask", props=["C17", "C05"])
+class _run_dask:
+    def configs():
+        return [{"chunks": k, "expand": e} for k in (1, 2, 3) for e in (False,)]
+
+    def inputs(b):
+        from pyvc.libstubs import FakeDaskArray
+        return dict(name="nm", data=FakeDaskArray("arr", b.cfg.chunks), compute=False, method=None, func="BLOCK_HIST", expand_arg=b.cfg.expand)
+
+    @ensures("one_task_per_chunk_and_one_sum_over_all_of_them")     # then C05's chunk lemma applies: sum over any partition
+    def _(a, old, result):
+        graph, result_name = result
+        keys = old.data.__dask_keys__()
+        items = [k for k in graph if isinstance(k, str) and k != result_name]
+        tasks = [graph[k] for k in items]
+        op, summed = graph[result_name]
+        return And(len(items) == len(keys), sorted(t[1] for t in tasks) == sorted(keys), all(t[0] == "BLOCK_HIST" for t in tasks),
+                   list(summed) == items, len(set(items)) == len(items), all(k in graph for k in old.data.dask),
+                   op is sum or getattr(op, "name", "") == "sum")
+
+    @raises(ValueError, "never")
+    def _(o):
+        return False
+
+
+# ---------------------------------------------------------------------------------------------- h2 / h3: column-wise input equals row-wise input
+
+@contract("physt._facade:h2", props=["C02", "C17"])
+class _h2:
+    bounded = True
+    bound_note = BOUND
+
+    def configs():
+        return [{"n": 2, "kind": k} for k in ("array", "list", "pandas")]
+
+    def inputs(b):
+        c = b.cfg
+        bins = [make_binning(b, f"B{i}", "static", s) for i, s in enumerate((1, 2))]
+        x, y = b.array("x", (c.n,)), b.array("y", (c.n,))
+        wrapx = wrap(b, "list" if c.kind == "list" else ("pandas" if c.kind == "pandas" else "array2d"), x, "u") if c.kind != "array" else x
+        wrapy = wrap(b, "list" if c.kind == "list" else ("pandas" if c.kind == "pandas" else "array2d"), y, "v") if c.kind != "array" else y
+        return dict(data1=wrapx, data2=wrapy, bins=bins, _x=x, _y=y)
+
+    def invoke(I, fn, a, cfg):
+        kw = {k: v for k, v in a.__dict__.items() if not k.startswith("_")}
+        if I is not None:
+            return I.call(fn, [], kw)
+        return fn(**kw)
+
+    @ensures("equals_h_of_the_column_stacked_array_axes_not_mixed_up")
+    def _(a, old, result):
+        import itertools
+        from .nd import cell_pred
+        rows = [[x, y] for x, y in zip(elems(old._x), elems(old._y))]
+        shape = tuple(len(bins_of(x)) for x in old.bins)
+        f = F(result)
+        cs = [typename(result) == "Histogram2D"]
+        for pos, cell in enumerate(itertools.product(*[range(s) for s in shape])):
+            sf = 0
+            for r in rows:
+                sf = sf + If(cell_pred(old.bins, cell, r), 1, 0)
+            cs.append(f[pos] == sf)
+        cs.append(total(f) + M(result)[0] == len(rows))
+        if a._cfg_kind == "pandas":
+            cs.append(tuple(attr(result, "_meta_data")["axis_names"]) == ("u", "v"))
+        return And(*cs)
+
+
+@contract("physt._facade:h3", props=["C02"])
+class _h3:
+    bounded = True
+    bound_note = BOUND
+
+    def configs():
+        return [{"n": 1, "kind": k} for k in ("columns", "rows")]
+
+    def inputs(b):
+        c = b.cfg
+        bins = [make_binning(b, f"B{i}", "static", s) for i, s in enumerate((1, 2, 1))]
+        arr = b.array("d", (c.n, 3))
+        if c.kind == "rows":
+            data = arr
+        else:
+            data = [b.carray_col(arr, j) if b.mode == "sym" else arr[:, j].copy() for j in range(3)]
+        return dict(data=data, bins=bins, _array=arr)
+
+    def invoke(I, fn, a, cfg):
+        kw = {k: v for k, v in a.__dict__.items() if not k.startswith("_")}
+        if I is not None:
+            return I.call(fn, [], kw)
+        return fn(**kw)
+
+    @ensures("equals_h_of_the_rows")
+    def _(a, old, result):
+        import itertools
+        from .nd import cell_pred
+        rows = aslist(old._array)
+        shape = tuple(len(bins_of(x)) for x in old.bins)
+        f = F(result)
+        cs = [typename(result) == "HistogramND", len(attr(result, "_binnings")) == 3]
+        for pos, cell in enumerate(itertools.product(*[range(s) for s in shape])):
+            sf = 0
+            for r in rows:
+                sf = sf + If(cell_pred(old.bins, cell, r), 1, 0)
+            cs.append(f[pos] == sf)
+        return And(*cs)
